@@ -936,5 +936,5 @@ func init() {
 	Registry["C04"] = sessDriver("C04", "model", "explicit-state BFS over event histories (frames from 5 MAC classes x 10 addresses, ARP incl. sender!=ethernet source, DHCP frames, DHCPv4Update, offers, capture/release, name updates, virtual-time ticks); after every transition FindIP/GetHosts/IPAddrs/FindByMAC/FindMACEntry are compared with the reference model built from the rules of the statement")
 	Registry["C05"] = sessDriver("C05", "invariant", "same exploration as C04; after every transition the structural invariant (index<->MAC list bijection, same pointer identity, unique MACs, host MAC == entry MAC, online host => online MAC entry, PrintTable does not panic) is evaluated on the exported tables")
 	Registry["C06"] = sessDriver("C06", "notify", "same exploration as C04 with Notify after every Parse and the channel drained after every step; exactly-once accounting per address: content equals tracked state, no duplicate, nothing lost for the frame's host, superseded/aged addresses reported offline, offline-before-online order")
-	Registry["C10"] = sessDriver("C10", "alias", "same exploration as C04, every history executed three times on fresh instances: private immutable buffers, one shared buffer scribbled with 0x00 after every call, and with 0xa5; notifications, emitted frames and table snapshots must be identical step by step")
+	Registry["C10"] = sessDriver("C10", "alias", "same exploration as C04, every history executed again on fresh instances with one shared receive buffer that is scribbled after every call (quick: pattern 0xa5; thorough: 0x00 and 0xa5) and compared with the run on private immutable buffers; notifications, emitted frames and table snapshots must be identical step by step")
 }
